@@ -11,6 +11,12 @@ type Tables struct {
 	ROExceptions map[string]string            `json:"ro_exceptions"` // methods allowed to write while read-only
 	NilResults   map[string]map[string]string `json:"nil_results"`   // method key -> result name -> spec expression on nil receiver
 	NilExceptions map[string]string           `json:"nil_exceptions"`
+	ROModifies   map[string]ROExtra           `json:"ro_modifies"`
+}
+
+type ROExtra struct {
+	Modifies string `json:"modifies"`
+	Requires string `json:"requires"`
 }
 
 func loadTables(path string) (*Tables, error) {
